@@ -85,6 +85,14 @@ pub fn run(ctx: &Ctx) -> ! {
     let samples = Mutex::new(Samples::new(4));
     let skipped_panics = AtomicU64::new(0);
 
+    if ctx.tier == Tier::Thorough {
+        // every prefix of every case is a fresh execution: this space is affordable only in the thorough tier
+        cfg.extra.push(("two-edge structures + one deviation of any kind", {
+            let mut x = corpus::structures_any_cfg(&uni);
+            x.only_datasets = Some(vec!["diamond"]);
+            x
+        }));
+    }
     let stats = corpus::drive(
         ctx,
         &uni,
